@@ -1745,6 +1745,11 @@ func RunC18(c *core.Ctx) {
 		c.Fail("harness", p.err.Error(), "store.history", core.Params{}, core.Obs{})
 		return
 	}
+	if os.Getenv("VERIF_C18_PART") == "conc" { // development aid (the check never sets it): store_conc.go alone
+		stConcurrent(c)
+		stDIRestart(c)
+		return
+	}
 	t0 := time.Now()
 	hs := c.Seed * 1000
 	next := func() int64 { hs++; return hs }
@@ -1918,6 +1923,9 @@ func RunC18(c *core.Ctx) {
 	c.Note("random part: %.1fs", time.Since(t1).Seconds())
 	// --- every key exchange suite x cipher suite: the stored session works after it was read back (store_more.go)
 	stxMatrix(c)
+	// --- concurrent use with sqlite.Open's own settings; DI continued on another instance (store_conc.go)
+	stConcurrent(c)
+	stDIRestart(c)
 	if n := stOpenCount.Load(); n > 0 && stOpCount.Load() > 0 {
 		c.Note("timing: %d database opens, %.1f ms each; %d operations (incl. restarts), %.2f ms each", n, float64(stOpenNs.Load())/float64(n)/1e6,
 			stOpCount.Load(), float64(stOpNs.Load())/float64(stOpCount.Load())/1e6)
